@@ -1,5 +1,5 @@
 (* C11 property theorems: ONLY statements closed by `exact`, each followed by Print Assumptions. *)
-From Coq Require Import List Arith Bool PeanoNat.
+From Coq Require Import List Arith Bool PeanoNat ZArith.
 From DuneV Require Import C11_Model C11_Spec C11_Proofs C11_Proofs_AL C11_Proofs_SL C11_Proofs_LRU C11_Proofs_RV C11_Proofs_BV.
 Import ListNotations.
 
@@ -37,6 +37,23 @@ Example C11_sllist_refines_nonvacuous :
   (exists tr, c11_sls_run nat Nat.eqb ([], []) c11_ex_sl_ops = map Some tr /\ length tr = length (c11_sls_run nat Nat.eqb ([], []) c11_ex_sl_ops))
   /\ nth 9 (c11_sls_run nat Nat.eqb ([], []) c11_ex_sl_ops) None = Some ((4, false, [0; 7; 1; 5]), (4, false, [0; 7; 1; 5]), true, false).
 Proof. split; [exact (c11_somes_tr (c11_sls_run nat Nat.eqb ([], []) c11_ex_sl_ops) (eq_refl true)) | vm_compute; reflexivity]. Qed.
+
+(* ---- SLList ModifyIterator positions: the same histories observed together with where the ModifyIterator stands after the
+   operation (this strengthens C11_sllist_refines, which it implies): after insert(v) at position k the iterator still points to the
+   element that was at position k (or equals endModify()), after remove() at position k it points to the element that was at k+1
+   (or equals endModify()), endModify().insert(v) stays at the end. *)
+Theorem C11_sllist_modify_iterator :
+  forall (T : Type) (d : T) (teq : T -> T -> bool) (ops : list (c11_sl_op T)) (tr : list (c11_sl_obs T * option (option T))),
+    c11_sls_run2 T teq (([], []), None) ops = map Some tr ->
+    c11_sl_run2 T d teq true ((c11_sl_empty T d, c11_sl_empty T d), None) ops = map C11_ok tr.
+Proof. exact c11_sllist_modify_iterator_lemma. Qed.
+Print Assumptions C11_sllist_modify_iterator.
+
+Example C11_sllist_modify_iterator_nonvacuous :
+  (exists tr, c11_sls_run2 nat Nat.eqb (([], []), None) c11_ex_sl_ops = map Some tr /\ length tr = length (c11_sls_run2 nat Nat.eqb (([], []), None) c11_ex_sl_ops))
+  /\ map (fun o => match o with Some (_, p) => p | None => None end) (firstn 6 (c11_sls_run2 nat Nat.eqb (([], []), None) c11_ex_sl_ops))
+     = [None; None; None; Some (Some 1); Some None; Some None].
+Proof. split; [exact (c11_somes_tr (c11_sls_run2 nat Nat.eqb (([], []), None) c11_ex_sl_ops) (eq_refl true)) | vm_compute; reflexivity]. Qed.
 
 (* ---- lru<Key,Tp> (node list with node identities + key index; insert(key,data) as in fixes/C11-3.patch): for every value type
    and every history of insert / touch / pop_front / pop_back / resize / clear that respects the documented preconditions
@@ -81,7 +98,8 @@ Proof. split; [exact (c11_somes_tr (c11_rvs_run nat Nat.eqb Nat.ltb 3 ([], [], N
 (* ---- BitSetVector<bs> (one flat vector<bool> + block proxies): for every block size bs >= 1 and every history of resize / clear /
    setAll / unsetAll / per-block set(j,v), flip(j), set(), reset(), flip(), assignment from bool, from a bitset and from another
    (or the same) block, &=, |=, ^= with a bitset or a block, <<= and >>= by any count, the model never leaves the vector and shows
-   after EVERY operation exactly the blocks (bit by bit through test()), count() and countmasked(j) for all j < bs of the list of
+   after EVERY operation exactly the blocks (bit by bit through test()), count(), countmasked(j) for all j < bs and the per-block
+   proxy queries count()/any()/none()/all()/== (against the cyclically next block)/~ (modelled with their loops) of the list of
    std::bitset<bs> values: each block behaves as a std::bitset<bs> (list of bs bits; shifts fill with zeros) and blocks are
    independent.  any/none/all/==/~/<</>> /back()/iteration of the const proxy are functions of the observed bits and are
    cross-checked inside the impl driver only. *)
@@ -93,8 +111,75 @@ Print Assumptions C11_bitset_refines.
 
 Example C11_bitset_refines_nonvacuous :
   (exists tr, c11_bvs_run 3 [] c11_ex_bv_ops = map Some tr /\ length tr = length (c11_bvs_run 3 [] c11_ex_bv_ops))
-  /\ nth 5 (c11_bvs_run 3 [] c11_ex_bv_ops) None = Some ([[true; false; true]; [true; false; false]], 3, [2; 0; 1]).
+  /\ nth 5 (c11_bvs_run 3 [] c11_ex_bv_ops) None = Some ([[true; false; true]; [true; false; false]], 3, [2; 0; 1], [(2, true, false, false, false, [false; true; false]); (1, true, false, false, false, [false; true; true])]).
 Proof. split; [exact (c11_somes_tr (c11_bvs_run 3 [] c11_ex_bv_ops) (eq_refl true)) | vm_compute; reflexivity]. Qed.
+
+(* ---- ArrayList iterators (ArrayListIterator / ConstArrayListIterator = list + absolute position_): in EVERY state reached by a
+   precondition-respecting history, every random-access path reads the abstract list: begin()[i] and mid[i - m] for mid = begin() +
+   size()/2 (operator[] takes a difference_type that is converted to size_t: negative offsets wrap modulo 2^64 and wrap back, guard
+   start_+size_ < 2^64), the reverse walk from end() with --, end() - begin() = size(), begin() + size() == end(); appending
+   invalidates NO iterator (every position begin()+i still dereferences to element i after push_back); eraseToHere() leaves its
+   iterator at the new begin(). *)
+Theorem C11_arraylist_random_access :
+  forall (T : Type) (d : T) (N : nat) (ops : list (c11_al_op T)) (ws : c11_als_world T),
+    c11_spec_exec (c11_als_step T) ([], None) ops = Some ws ->
+    exists w, c11_exec (c11_al_step T d N true) (c11_al_empty T, None) ops = C11_ok w /\
+      let s := fst w in let l := fst ws in
+      al_size s = length l /\
+      ((Z.of_nat (c11_al_end T s) < 2 ^ 64)%Z -> c11_al_read_begin T N s = C11_ok l /\ c11_al_read_mid T N s = C11_ok l) /\
+      c11_al_read_reverse T N s = C11_ok l /\
+      c11_ali_distanceTo (c11_al_begin T s) (c11_al_end T s) = Z.of_nat (length l) /\
+      c11_ali_equals (c11_ali_advance (c11_al_begin T s) (al_size s)) (c11_al_end T s) = true /\
+      (forall v, exists s', c11_al_push_back T d N s v = C11_ok s' /\ c11_al_begin T s' = c11_al_begin T s /\
+                 forall i x, nth_error l i = Some x -> c11_ali_dereference T N s' (c11_ali_advance (c11_al_begin T s) i) = C11_ok x) /\
+      (forall k, k < length l -> snd (c11_al_eraseToHere T N s (c11_al_begin T s + k)) = c11_al_begin T (fst (c11_al_eraseToHere T N s (c11_al_begin T s + k)))).
+Proof. exact c11_arraylist_random_access_lemma. Qed.
+Print Assumptions C11_arraylist_random_access.
+
+Example C11_arraylist_random_access_nonvacuous :
+  c11_spec_exec (c11_als_step nat) ([], None) c11_ex_al_ops = Some ([8], None) /\
+  c11_al_read_mid nat 2 (fst (match c11_exec (c11_al_step nat 0 2 true) (c11_al_empty nat, None) (firstn 9 c11_ex_al_ops) with C11_ok w => w | _ => (c11_al_empty nat, None) end))
+  = C11_ok [3; 4; 5; 6].
+Proof. vm_compute. split; reflexivity. Qed.
+
+(* ---- ReservedVector derived comparisons: the same histories, additionally observing A != B, A > B, A <= B, A >= B computed as the
+   header writes them (through == and <); they match the negations / swaps of the lexicographic comparisons of the spec whenever
+   those inspect specified values only.  Strengthens C11_reserved_refines (its observation is the first component). *)
+Theorem C11_reserved_comparisons :
+  forall (T : Type) (d : T) (teq tlt : T -> T -> bool) (n : nat) (ops : list (c11_rv_op T))
+         (tr : list (c11_rvs_obs T * (option bool * option bool * option bool * option bool))),
+    c11_rvs_run2 T teq tlt n ([], [], None) ops = map Some tr ->
+    exists mtr, c11_rv_run2 T d teq tlt n (c11_rv_empty T d n, c11_rv_empty T d n, None) ops = map C11_ok mtr /\
+                Forall2 (c11_rv_obs_match2 T) mtr tr.
+Proof. exact c11_reserved_comparisons_lemma. Qed.
+Print Assumptions C11_reserved_comparisons.
+
+Example C11_reserved_comparisons_nonvacuous :
+  (exists tr, c11_rvs_run2 nat Nat.eqb Nat.ltb 3 ([], [], None) c11_ex_rv_ops = map Some tr /\
+              length tr = length (c11_rvs_run2 nat Nat.eqb Nat.ltb 3 ([], [], None) c11_ex_rv_ops))
+  /\ match nth 1 (c11_rvs_run2 nat Nat.eqb Nat.ltb 3 ([], [], None) c11_ex_rv_ops) None with Some (_, q) => q | None => (None, None, None, None) end
+     = (Some true, Some true, Some false, Some true).
+Proof. split; [exact (c11_somes_tr (c11_rvs_run2 nat Nat.eqb Nat.ltb 3 ([], [], None) c11_ex_rv_ops) (eq_refl true)) | vm_compute; reflexivity]. Qed.
+
+(* ---- ReservedVector capacity boundary: in EVERY reachable state size() <= n = capacity(), the storage has exactly n slots, a
+   push_back below capacity succeeds and increases size() by one (up to exactly full), and a push_back on an exactly full vector
+   leaves the storage (model: C11_ub; C++: undefined behaviour, assert with CHECK_RESERVEDVECTOR) - the documented precondition is
+   necessary, no silent growth or wrap. *)
+Theorem C11_reserved_capacity :
+  forall (T : Type) (d : T) (n : nat) (ops : list (c11_rv_op T)) (ws : c11_rvs_world T),
+    c11_spec_exec (c11_rvs_step T n) ([], [], None) ops = Some ws ->
+    exists w, c11_exec (c11_rv_step T d n) (c11_rv_empty T d n, c11_rv_empty T d n, None) ops = C11_ok w /\
+      forall (i : bool), let s := (if i then snd (fst w) else fst (fst w)) in let l := (if i then snd (fst ws) else fst (fst ws)) in
+        rv_size s = length l /\ rv_size s <= n /\ length (rv_arr s) = n /\
+        (forall v, length l < n -> exists s', c11_rv_push_back T s v = C11_ok s' /\ rv_size s' = S (rv_size s)) /\
+        (forall v, length l = n -> c11_rv_push_back T s v = C11_ub).
+Proof. exact c11_reserved_capacity_lemma. Qed.
+Print Assumptions C11_reserved_capacity.
+
+Example C11_reserved_capacity_nonvacuous :
+  c11_spec_exec (c11_rvs_step nat 2) ([], [], None) [RvPush _ false 1; RvPush _ false 2] = Some ([Some 1; Some 2], [], None) /\
+  c11_exec (c11_rv_step nat 0 2) (c11_rv_empty nat 0 2, c11_rv_empty nat 0 2, None) [RvPush _ false 1; RvPush _ false 2; RvPush _ false 3] = C11_ub.
+Proof. vm_compute. split; reflexivity. Qed.
 
 (* ---- deep observables (compared with the implementation's private members by the optional deep stream of checks/C11.py).
    ArrayList: after every operation of every history capacity_ = chunks_.size() * chunkSize_, start_ + size_ <= capacity_, and the
